@@ -285,7 +285,7 @@ def uncps(s):
     return '' if s in ('', '-') else ''.join(chr(int(x)) for x in s.split(','))
 
 
-def run_model(requests, nproc=NPROC, timeout=3000):
+def run_model(requests, nproc=NPROC, timeout=1200):
     """Run request lines through the extracted model, in parallel chunks; returns reply lines."""
     if not requests:
         return []
@@ -293,9 +293,21 @@ def run_model(requests, nproc=NPROC, timeout=3000):
     chunks = [requests[i::n] for i in range(n)]
 
     def work(chunk):
-        p = subprocess.run([MODEL_BIN], input='\n'.join(chunk) + '\n', stdout=subprocess.PIPE,
-                           stderr=subprocess.PIPE, text=True, timeout=timeout,
-                           preexec_fn=_unlimit_stack)
+        try:
+            p = subprocess.run([MODEL_BIN], input='\n'.join(chunk) + '\n', stdout=subprocess.PIPE,
+                               stderr=subprocess.PIPE, text=True, timeout=timeout,
+                               preexec_fn=_unlimit_stack)
+        except subprocess.TimeoutExpired as e:
+            # the model did not answer in time (e.g. a regenerated rule that backtracks exponentially): the answers
+            # given so far are kept, the rest count as a disagreement
+            got = (e.stdout or '')
+            if isinstance(got, bytes):
+                got = got.decode('utf-8', 'replace')
+            lines = got.split('\n')
+            if lines and lines[-1] == '':
+                lines.pop()
+            lines = lines[:len(chunk)]
+            return lines + [f'TIMEOUT after {timeout}s'] * (len(chunk) - len(lines))
         lines = p.stdout.split('\n')
         if lines and lines[-1] == '':
             lines.pop()
